@@ -290,6 +290,9 @@ pub struct Receiver {
     tx: mpsc::Sender<PortEvt>,
     rx: mpsc::UnboundedReceiver<PortReceiveMsg>,
     receiving: Receiving,
+    /// Message that indicated cancellation of the previous transmission to
+    /// [recv_chunk](Self::recv_chunk) and is still to be processed.
+    unprocessed: Option<PortReceiveMsg>,
     credits: ChannelCreditReturner,
     closed: bool,
     finished: bool,
@@ -333,6 +336,7 @@ impl Receiver {
             tx,
             rx,
             receiving: Receiving::Nothing,
+            unprocessed: None,
             credits,
             closed: false,
             finished: false,
@@ -396,6 +400,15 @@ impl Receiver {
         }
     }
 
+    /// Returns the next message from the multiplexer, starting with the message
+    /// that was put back by [recv_chunk](Self::recv_chunk).
+    async fn next_msg(&mut self) -> Option<PortReceiveMsg> {
+        match self.unprocessed.take() {
+            Some(msg) => Some(msg),
+            None => self.rx.recv().await,
+        }
+    }
+
     /// Receives chunks of data over the channel.
     ///
     /// This should be called when [recv_any](Self::recv_any) returns [Received::Chunks]
@@ -424,18 +437,20 @@ impl Receiver {
                 }
 
                 // Try to receive next chunk.
-                _ => match self.rx.recv().await {
+                _ => match self.next_msg().await {
                     Some(PortReceiveMsg::Data(data)) => {
+                        // First segment without last segment indicates that last transmission
+                        // was cancelled. The segment belongs to the next message and is kept
+                        // for the next receive call.
+                        if let (Receiving::Chunks { .. }, true) = (&self.receiving, data.first) {
+                            self.unprocessed = Some(PortReceiveMsg::Data(data));
+                            self.receiving = Receiving::Nothing;
+                            return Err(RecvChunkError::Cancelled);
+                        }
+
                         self.credits.start_return(data.credit, self.remote_port, &self.tx);
 
                         match (&self.receiving, data.first) {
-                            // First segment without last segment indicates that last transmission
-                            // was cancelled.
-                            (Receiving::Chunks { .. }, true) => {
-                                self.receiving =
-                                    Receiving::Chunks { chunks: vec![data.buf].into(), completed: data.last };
-                                return Err(RecvChunkError::Cancelled);
-                            }
                             // Either continuation or start of transmission.
                             (Receiving::Chunks { .. }, false) | (_, true) => {
                                 self.receiving =
@@ -449,11 +464,13 @@ impl Receiver {
 
                     // Either aborted transmission or port data to ignore.
                     Some(PortReceiveMsg::PortRequests(req)) => {
-                        self.credits.start_return(req.credit, self.remote_port, &self.tx);
                         if let Receiving::Chunks { .. } = &self.receiving {
+                            // Port requests are kept for the next receive call.
+                            self.unprocessed = Some(PortReceiveMsg::PortRequests(req));
                             self.receiving = Receiving::Nothing;
                             return Err(RecvChunkError::Cancelled);
                         }
+                        self.credits.start_return(req.credit, self.remote_port, &self.tx);
                     }
 
                     // Port closure.
@@ -482,7 +499,7 @@ impl Receiver {
         loop {
             self.credits.return_flush().await;
 
-            match self.rx.recv().await {
+            match self.next_msg().await {
                 // Data message.
                 Some(PortReceiveMsg::Data(data)) => {
                     self.credits.start_return(data.credit, self.remote_port, &self.tx);
